@@ -298,8 +298,8 @@ def generate_transformation(angmom, cartesian_order, spherical_order, apply_from
         raise TypeError("`spherical_order` must be given as a list or a tuple.")
     if not (
         len(spherical_order) == 2 * angmom + 1
-        # Strip out "-" from the ordering to make sure the right components are there
-        and {x.replace("-", "") for x in spherical_order}
+        # Strip out the leading "-" from the ordering to make sure the right components are there
+        and {x[1:] if x.startswith("-") else x for x in spherical_order}
         == set(
             ["s{}".format(m) for m in range(angmom, 0, -1)]
             + ["c{}".format(m) for m in range(angmom + 1)]
